@@ -271,9 +271,9 @@ class RuleGen:
             return {"by_name": vary(r, r.choice([b["name"]] + self.names.get((b["pkg"], b["obj"]), [])))}
         if c < 0.88:
             return {"by_variant": r.choice(VARIANTS)}
-        if c < 0.95:
+        if c < 0.955:
             return {"generated_from_disjunction": r.random() < 0.8}
-        if allow_bad and c < 0.97:
+        if allow_bad and c < 0.96:
             return {}
         return {"by_object": vary(r, b["obj"]), "by_name": "Other"}
 
@@ -310,11 +310,13 @@ class RuleGen:
             if r.random() < 0.05:
                 sel = {"options": [optn]}
             return {"by_names": sel}
-        if c < 0.96:
+        if c < 0.94:
             return {"by_name": optn}          # no dot: load error
-        if c < 0.98:
+        if c < 0.95:
             return {}
-        return {"by_builder": "." + optn}
+        if c < 0.96:
+            return {"by_builder": "." + optn}
+        return {"by_name": vary(r, obj) + "." + optn}
 
     # -- small IR pieces usable in YAML as well
     def simple_type(self):
@@ -369,9 +371,9 @@ class RuleGen:
             t = resolve(self.schemas, f["type"])
             fields = t.get("fields", []) if t.get("k") == "struct" else []
         c = r.random()
-        if c < 0.08:
+        if c < 0.04:
             parts.append("absentField")
-        elif c < 0.11:
+        elif c < 0.05:
             return ""
         return ".".join(parts)
 
@@ -457,7 +459,7 @@ class RuleGen:
     def brule(self, kind=None):
         r = self.rng
         kind = kind or r.choice(["omit", "rename", "merge_into", "compose", "properties", "duplicate", "initialize",
-                                 "promote_options_to_constructor", "add_option", "add_factory"] * 3 + ["empty", "double"])
+                                 "promote_options_to_constructor", "add_option", "add_factory"] * 6 + ["empty", "double"])
         b = self.pick_builder()
         if kind == "omit":
             return {"omit": self.bsel(b)}
@@ -473,7 +475,9 @@ class RuleGen:
             cands = [(d, f) for d in self.bs for f in d["fields"] if f["type"].get("k") == "ref" and
                      any(s["pkg"] == f["type"]["pkg"] and s["obj"] == f["type"]["name"] and s["pkg"] == d["pkg"] for s in self.bs)]
             under = self.path_in(dest, 1)
-            if cands and r.random() < 0.7:
+            if not cands and r.random() < 0.85:
+                return self.brule(r.choice(["omit", "rename", "duplicate", "properties", "initialize"]))
+            if cands and r.random() < 0.9:
                 dest, f = r.choice(cands)
                 src = [s for s in self.bs if s["pkg"] == f["type"]["pkg"] and s["obj"] == f["type"]["name"]][0]
                 under = f["name"]
@@ -533,7 +537,7 @@ class RuleGen:
         r = self.rng
         kind = kind or r.choice(["omit", "rename", "rename_arguments", "unfold_boolean", "struct_fields_as_arguments",
                                  "struct_fields_as_options", "array_to_append", "map_to_index", "disjunction_as_options",
-                                 "duplicate", "add_assignment", "add_comments"] * 3 + ["empty", "double"])
+                                 "duplicate", "add_assignment", "add_comments"] * 6 + ["empty", "double"])
         b = b or self.pick_builder()
         if kind == "omit":
             return {"omit": self.osel(b, opt=opt)}
@@ -578,6 +582,95 @@ class RuleGen:
 WRITERS = ["rename_arguments", "array_to_append", "map_to_index"]
 
 
+def writer_rule(g, r, sel, f):
+    """an option action that writes through shared cells, aimed at an option derived from field f"""
+    kd = kind_of(g.schemas, f)
+    c = r.random()
+    if kd == "array" and c < 0.7:
+        return {"array_to_append": sel}
+    if kd == "map" and c < 0.7:
+        return {"map_to_index": sel}
+    return {"rename_arguments": dict(sel, **{"as": [r.choice(["x", "val", "tags"])]})}
+
+
+def sharing_scenario(g, r, schemas, pkg):
+    """a builder rule that copies options shallowly (merge_into, compose, promote, add_option)
+    followed by option actions that write through what the copies share"""
+    allb = builders_of(schemas)
+    brules, orules = [], []
+    mk = r.choice(["merge_into", "merge_into", "compose", "promote", "add_option"])
+    if mk == "merge_into":
+        cands = [(d, f, s) for d in allb if d["pkg"] == pkg for f in d["fields"] if f["type"].get("k") == "ref"
+                 for s in allb if s["pkg"] == d["pkg"] and s["obj"] == f["type"].get("name") and f["type"].get("pkg") == s["pkg"]
+                 and s["obj"] != d["obj"] and s["opts"]]
+        if not cands:
+            return [g.brule("merge_into")], [g.orule(r.choice(WRITERS))]
+        d, f, src = r.choice(cands)
+        brules.append({"merge_into": {"destination": d["name"], "source": src["name"], "under_path": f["name"]}})
+        for _ in range(r.randint(1, 2)):
+            sf = r.choice(src["opts"])
+            where = r.random()
+            if where < 0.6:      # write on the copy held by the destination
+                sel = {"by_builder": d["name"] + "." + sf["name"]}
+            else:                # write on the source: the destination's copy changes
+                sel = {"by_name": src["obj"] + "." + sf["name"]}
+            orules.append(writer_rule(g, r, sel, sf))
+        if r.random() < 0.3:
+            brules.append({"omit": {"by_object": src["obj"]}})
+    elif mk == "compose":
+        comps = [b for b in allb if b["schema"].get("meta", {}).get("kind") == "composable" and b["schema"]["meta"].get("id")]
+        srcs = [b for b in allb if any(f["type"].get("sk") == "string" for f in b["fields"])]
+        if not comps or not srcs:
+            return [g.brule("compose")], [g.orule(r.choice(WRITERS))]
+        src = r.choice(srcs)
+        variant = r.choice(comps)["schema"]["meta"].get("variant", "")
+        disc = r.choice([f["name"] for f in src["fields"] if f["type"].get("sk") == "string"])
+        slots = [f["name"] for f in src["fields"] if f["type"].get("sk") == "any"] or [f["name"] for f in src["fields"]]
+        cmap = {b["obj"]: r.choice(slots) for b in comps if b["schema"]["meta"].get("variant", "") == variant}
+        name = r.choice(["", "Composed"])
+        brules.append({"compose": {"by_variant": variant, "source_builder_name": src["pkg"] + "." + src["obj"],
+                                   "plugin_discriminator_field": disc, "composition_map": cmap, "composed_builder_name": name,
+                                   "preserve_original_builders": r.random() < 0.7}})
+        for _ in range(r.randint(1, 2)):
+            cb = r.choice(comps)
+            if not cb["opts"]:
+                continue
+            sf = r.choice(cb["opts"])
+            if r.random() < 0.5:
+                sel = {"by_name": cb["obj"] + "." + sf["name"]}
+            else:
+                sel = {"by_builder": (name or src["obj"]) + "." + sf["name"]}
+            orules.append(writer_rule(g, r, sel, sf))
+    elif mk == "promote":
+        cands = [b for b in allb if b["pkg"] == pkg and b["opts"]] or [b for b in allb if b["opts"]]
+        if not cands:
+            return [g.brule()], [g.orule()]
+        b = r.choice(cands)
+        sf = r.choice(b["opts"])
+        brules.append({"promote_options_to_constructor": {"by_object": b["obj"], "options": [sf["name"]]}})
+        orules.append(writer_rule(g, r, {"by_name": b["obj"] + "." + sf["name"]}, sf))
+    else:
+        cands = [b for b in allb if b["pkg"] == pkg and b["fields"]]
+        if len(cands) < 1:
+            return [g.brule("add_option")], [g.orule(r.choice(WRITERS))]
+        arg = {"name": "v", "type": S("string")}
+        for b in r.sample(cands, min(len(cands), 2)):
+            f = r.choice(b["fields"])
+            brules.append({"add_option": {"by_object": b["obj"], "option": {
+                "name": "extra", "arguments": [copy.deepcopy(arg)],
+                "assignments": [{"path": f["name"], "method": "direct", "value": {"argument": copy.deepcopy(arg)}}]}}})
+        if r.random() < 0.5:
+            # one rule, several builders: the rule's own argument cells are shared between them
+            brules = [{"add_option": dict(brules[0]["add_option"], **{"by_object": None})}]
+            brules[0]["add_option"].pop("by_object")
+            brules[0]["add_option"]["generated_from_disjunction"] = True
+            brules[0]["add_option"]["option"]["assignments"] = []
+        orules.append({"rename_arguments": {"by_name": cands[0]["obj"] + ".extra", "as": ["w"]}})
+    if r.random() < 0.3:
+        orules.append(g.orule())
+    return brules, orules
+
+
 def gen_files(rng, schemas):
     """rule files; a share of the cases follows a sharing-creating builder rule by an option
     action that writes through what the copies share"""
@@ -588,19 +681,13 @@ def gen_files(rng, schemas):
     files = []
     for _ in range(nfiles):
         c = r.random()
-        pkg = r.choice(pkgs) if c < 0.93 or not pkgs else ("nopkg" if c < 0.985 else "")
+        pkg = r.choice(pkgs) if c < 0.95 or not pkgs else ("nopkg" if c < 0.992 else "")
         # rules are aimed at builders of the file's package (selectors carry it)
         g.bs = [b for b in builders_of(schemas) if b["pkg"] == pkg] or builders_of(schemas)
         brules, orules = [], []
         scen = r.random()
         if scen < 0.22 and g.bs:
-            # sharing then writing
-            mk = r.choice(["merge_into", "merge_into", "compose", "promote_options_to_constructor", "add_option", "duplicate"])
-            brules.append(g.brule(mk))
-            for _ in range(r.randint(0, 1)):
-                brules.append(g.brule())
-            for _ in range(r.randint(1, 3)):
-                orules.append(g.orule(r.choice(WRITERS + WRITERS + [None])))
+            brules, orules = sharing_scenario(g, r, schemas, pkg)
         else:
             for _ in range(r.choice([0, 0, 1, 1, 1, 2, 3])):
                 brules.append(g.brule())
@@ -682,3 +769,67 @@ def gen_job(rng, depth=3):
     for f in files:
         f["yaml"] = render_yaml(f)
     return {"schemas": schemas, "language": "go", "via": via, "files": files}
+
+
+# ---------------------------------------------------------------- fixed cases run before the generated ones
+def seed_jobs():
+    """hand-written cases: the sharing scenarios, the borderline parameters that make rules
+    panic, duplicate after add_factory (defaults and factories must be copied)"""
+    def C(v):
+        return S("string", val=dstr(v))
+    base = [{"pkg": "alpha", "meta": {}, "entry": "", "objects": [
+        {"name": "Foo", "type": {"k": "struct", "fields": [
+            {"name": "tags", "type": {"k": "array", "v": S("string")}, "req": True},
+            {"name": "name", "type": S("string", cs=[{"op": "minLength", "args": [irgen.dint(1, "int64")]}]), "req": True},
+            {"name": "flag", "type": S("bool", **{"def": dbool(True)}), "req": True},
+            {"name": "labels", "type": {"k": "map", "i": S("string"), "v": S("bool")}, "req": False},
+            {"name": "choice", "type": {"k": "disj", "branches": [S("string"), S("int64")]}, "req": False}]}},
+        {"name": "Bar", "type": {"k": "struct", "fields": [
+            {"name": "foo", "type": {"k": "ref", "pkg": "alpha", "name": "Foo"}, "req": True},
+            {"name": "id", "type": S("int64"), "req": True}]}}]}]
+    panels = [
+        {"pkg": "dash", "meta": {}, "entry": "", "objects": [
+            {"name": "Panel", "type": {"k": "struct", "fields": [
+                {"name": "type", "type": S("string"), "req": True},
+                {"name": "k1", "type": C("a"), "req": True}, {"name": "k2", "type": C("b"), "req": True},
+                {"name": "k3", "type": C("c"), "req": True},
+                {"name": "title", "type": S("string"), "req": True},
+                {"name": "options", "type": S("any"), "req": True}]}}]},
+        {"pkg": "ts", "meta": {"kind": "composable", "variant": "panelcfg", "id": "timeseries"}, "entry": "", "objects": [
+            {"name": "Options", "type": {"k": "struct", "fields": [
+                {"name": "legend", "type": S("bool"), "req": True},
+                {"name": "tags", "type": {"k": "array", "v": S("string")}, "req": True}]}}]},
+        {"pkg": "tb", "meta": {"kind": "composable", "variant": "panelcfg", "id": "table"}, "entry": "", "objects": [
+            {"name": "Options", "type": {"k": "struct", "fields": [{"name": "header", "type": S("bool"), "req": True}]}}]}]
+    compose = {"compose": {"by_variant": "panelcfg", "source_builder_name": "dash.Panel", "plugin_discriminator_field": "type",
+                           "composition_map": {"Options": "options"}, "preserve_original_builders": True}}
+    cases = [
+        (base, "alpha", [{"merge_into": {"destination": "Bar", "source": "Foo", "under_path": "foo"}}],
+         [{"array_to_append": {"by_builder": "Bar.tags"}}]),
+        (base, "alpha", [{"merge_into": {"destination": "Bar", "source": "Foo", "under_path": "foo"}}],
+         [{"rename_arguments": {"by_builder": "Bar.flag", "as": ["enabled"]}}]),
+        (base, "alpha", [{"promote_options_to_constructor": {"by_object": "Foo", "options": ["tags"]}}],
+         [{"array_to_append": {"by_name": "Foo.tags"}}]),
+        (base, "alpha", [], [{"rename_arguments": {"by_name": "Foo.name", "as": ["title"]}}]),
+        (base, "alpha", [], [{"map_to_index": {"by_name": "Foo.labels"}}, {"unfold_boolean": {"by_name": "Foo.labels", "true_as": "on", "false_as": "off"}}]),
+        (panels, "dash", [compose], []),
+        (panels, "ts", [compose], [{"array_to_append": {"by_builder": "Panel.tags"}}]),
+        (base, "alpha", [{"add_option": {"by_object": "Foo", "option": {"name": "bare", "arguments": [], "assignments": []}}}],
+         [{"unfold_boolean": {"by_name": "Foo.bare", "true_as": "on", "false_as": "off"}}]),
+        (base, "alpha", [], [{"disjunction_as_options": {"by_name": "Foo.choice", "argument_index": 1}}]),
+        (base, "alpha", [], [{"disjunction_as_options": {"by_name": "Foo.choice", "argument_index": -1}}]),
+        (base, "alpha", [], [{"disjunction_as_options": {"by_name": "Foo.choice"}}]),
+        (base, "alpha", [{"add_factory": {"by_object": "Foo", "factory": {"name": "New", "arguments": [{"name": "a", "type": S("string")}],
+                                                                          "options": [{"name": "name", "parameters": [{"argument": {"name": "a", "type": S("string")}}]}]}}},
+                         {"duplicate": {"by_object": "Foo", "as": "FooCopy"}}], []),
+        (base, "alpha", [{"duplicate": {"by_object": "Foo", "as": "FooCopy", "exclude_options": ["TAGS"]}}], []),
+        (base, "alpha", [], [{"unfold_boolean": {"by_name": "Foo.flag", "true_as": "on", "false_as": "off"}}]),
+        (base, "alpha", [], [{"struct_fields_as_arguments": {"by_name": "Bar.foo"}}]),
+        (base, "alpha", [], [{"struct_fields_as_options": {"by_name": "Bar.foo", "fields": ["tags", "name"]}}]),
+    ]
+    jobs = []
+    for n, (schemas, pkg, brs, ors) in enumerate(cases):
+        f = {"language": "all", "package": pkg, "builders": copy.deepcopy(brs), "options": copy.deepcopy(ors)}
+        f["yaml"] = render_yaml(f)
+        jobs.append({"schemas": copy.deepcopy(schemas), "language": "go", "via": "yaml" if n % 2 else "direct", "files": [f]})
+    return jobs
